@@ -347,6 +347,14 @@ class StrAbs:
                     raise AnalysisError(f"{fi.qual}: join with a non-literal separator")
                 sep = "".join(it[1] for it in sepl.alts[0])
                 g = e.args[0]
+                if isinstance(g, ast.Call) and isinstance(g.func, ast.Name) and g.func.id == "map" and len(g.args) == 2 and not g.keywords \
+                        and isinstance(g.args[0], ast.Attribute) and g.args[0].attr == "__getitem__":
+                    # map(TABLE.__getitem__, xs) is (TABLE[c] for c in xs)
+                    cvar = ast.Name(id="_c", ctx=ast.Load())
+                    g = ast.copy_location(ast.GeneratorExp(
+                        elt=ast.copy_location(ast.Subscript(value=g.args[0].value, slice=cvar, ctx=ast.Load()), g),
+                        generators=[ast.comprehension(target=ast.Name(id="_c", ctx=ast.Store()), iter=g.args[1], ifs=[], is_async=0)]), g)
+                    ast.fix_missing_locations(g)
                 if isinstance(g, ast.Name) and isinstance(env.get(g.id), ListLang):
                     ll = env[g.id]
                     if ll.chars is not None:
